@@ -46,9 +46,15 @@ def state_fields(facts, f, interp):
 
 @rule('C05', 'R3', 'restart invariant: at every `return FlushAndRestart` each state field is empty/None as at construction')
 def c05_r3(ctx):
+    restart_invariant(ctx)
+
+
+def restart_invariant(ctx, only=None):
     std, sources, special = standard_operators(ctx.facts)
     total = 0
     for f, a in std:
+        if only is not None and not only(f.impl_adt or ''):
+            continue
         g = a.g
         fars = [n for n in g.return_nodes() if _exact(a, n, 'FlushAndRestart')]
         for place, name, ty in state_fields(ctx.facts, f, a.interp):
@@ -136,3 +142,15 @@ def c05_r4(ctx):
                              '%s::process(%s) can return with `%s` not drained: a window survives the end of the iteration'
                              % (short(f), variant, fl['name']),
                              {'path': g.describe_path(p) if p else None})
+
+
+@rule('C08', 'R4', 'join operators start every iteration from their constructed state (side maps, key sets, ended flags, last matched key, buffers)')
+def c08_r4(ctx):
+    """the restart invariant of C05.R3 restricted to the join operators: a leftover of the previous iteration is a spurious or a
+    missing pair of the relational result of the next one"""
+    restart_invariant(ctx, only=lambda adt: '::join::' in adt or 'interval_join' in adt)
+
+
+@rule('C07', 'R5', 'fold / keyed fold / reduce operators start every iteration from their constructed state')
+def c07_r5(ctx):
+    restart_invariant(ctx, only=lambda adt: '::fold::' in adt or '::keyed_fold::' in adt or 'fold_' in adt or '::reduce' in adt)
